@@ -139,6 +139,7 @@ func (c *coalescer) submit(ctx context.Context, msg *internalpb.RemoteMessage) e
 	// across them lets close wait for this submit before it stops the writer:
 	// a message enqueued after the writer's final drain would be accepted and
 	// then never sent nor reported.
+	verifhook.At("coal.submit.enter", c, 0, 0)
 	c.inflight.RLock()
 	defer c.inflight.RUnlock()
 
@@ -180,6 +181,7 @@ func (c *coalescer) close() {
 	c.closeOnce.Do(func() {
 		// Wakes blocked submits and makes later ones fail fast.
 		close(c.done)
+		verifhook.At("coal.close.lock", c, 0, 0)
 		// Every submit that passed its done check has either enqueued its
 		// message or observed done once the exclusive lock is granted.
 		c.inflight.Lock()
